@@ -280,6 +280,30 @@ func runErrs(ctx *Ctx) {
 			}
 		}
 	}
+	// long messages: context texts and embedded objects of several kilobytes (a status message is not a
+	// place where anything may be cut: the class AND the embedded object travel in it)
+	ctx.R.Case("long")
+	longT := []string{strings.Repeat("x", 4000) + ": ", strings.Repeat("long context ", 700), strings.Repeat("y", 20000) + " "}
+	longJ := []string{"\"" + strings.Repeat("z", 6000) + "\"", "[" + strings.Repeat("1,", 3000) + "1]"}
+	for i, cls := range names {
+		var recipes []string
+		recipes = append(recipes,
+			"C."+cls+";E."+hs(jsons[i%len(jsons)])+";W."+hs(longT[i%len(longT)])+".-",
+			"C."+cls+";E."+hs(jsons[i%len(jsons)])+";W.-."+hs(longT[(i+1)%len(longT)]),
+			"C."+cls+";W."+hs(longT[(i+2)%len(longT)])+".-;E."+hs(jsons[(i+1)%len(jsons)]),
+			"C."+cls+";E."+hs(longJ[i%len(longJ)]),
+			"C."+cls+";W."+hs("ctx: ")+".-;E."+hs(longJ[(i+1)%len(longJ)])+";W."+hs("outer: ")+".-")
+		for _, recipe := range recipes {
+			ctx.R.Nontrivial("embedded object")
+			do("code %s", recipe)
+			do("idem %s", recipe)
+			do("ext %s", recipe)
+			do("extraw %s", recipe)
+			do("markers %s", recipe)
+			do("is %s %s", recipe, cls)
+			do("is %s %s", recipe, names[(i+1)%len(names)])
+		}
+	}
 	// non-class bases and status bases (outside the property's hypothesis; model/code agreement only)
 	ctx.R.Case("other-bases")
 	for _, c := range grpcCodes {
